@@ -237,7 +237,7 @@ type c07Inst struct {
 	muxOrder  []protocol.ID // the listener's mux entries (without identify's), in mux order
 	snapStale bool          // the mux differs from the identify snapshot: the next protocols-updated event pushes
 	knownSet  [2]map[protocol.ID]bool
-	ck     *c07Checker
+	ck        *c07Checker
 }
 
 func (in *c07Inst) fail(f string, a ...any) {
